@@ -15,6 +15,7 @@ import QbiceVerif.Lemmas.TinyLfuWitness
 import QbiceVerif.Lemmas.TinyLfuPollFix
 import QbiceVerif.Lemmas.TinyLfuAtomic
 import QbiceVerif.Lemmas.TinyLfuUnpinSeed
+import QbiceVerif.Lemmas.TinyLfuMsgOrder
 
 namespace QbiceVerif.C16
 open QbiceVerif.TinyLfu
@@ -336,6 +337,72 @@ theorem poll_adversary_bounded :
           pinnedNow (Cfg.real 1 true true (fun k _ => k)) c5.pins c5.core.st = 5)
      | _, _ => false) = true := by
   decide +kernel
+
+/-! ### quiescence, either strategy -/
+
+/-- "Every resident entry is evictable", both strategies (pin token = key; `Notify`: protocol followed; `Poll`: the
+whole-region trim): whenever no resident entry is pinned, no buffered message concerns a resident key (e.g. a
+maintenance pass has just run, or only no-op notifications of absent keys have been buffered since) and — `Poll` — no
+release happened since the last round, the cache is within its capacity, exactly:
+`resident ≤ window capacity + main capacity`.  This is the bound the harness's multi-thread "remove vs re-insert"
+oracle applies after quiescing (signature `mt-leak:resident-untracked-after-remove-reinsert`). -/
+theorem bounded_quiescent {cfg : Cfg σ} {sk : σ} {ops : List Op} {c : Cache σ}
+    (hpm : cfg.protectedCap < cfg.mainLimit) (hfix : cfg.fixTrim = true) (htok : ∀ k v, cfg.tok k v = k)
+    (hq : cfg.poll = false → ∀ op, op ∈ ops → ∀ t, op ≠ .unpin t)
+    (h : run cfg (Cache.init sk) ops = .ok c)
+    (hw : ∀ m, m ∈ c.wbuf → sGet c.core.st (msgKey m) = none)
+    (hp : pinnedNow cfg c.pins c.core.st = 0) (hr : cfg.poll = true → c.rel = []) :
+    c.core.st.length ≤ cfg.windowCap + cfg.mainLimit := by
+  have hi := run_inv hpm h (init_inv cfg sk)
+  have hb := bufferedResident_nil hw
+  cases hpoll : cfg.poll with
+  | false =>
+    have hn := run_ninv htok hpm hpoll (hq hpoll) h (init_inv cfg sk) (by intro k hk; simp [Cache.init] at hk)
+    have := bound_notify_quiet htok hi hn
+    rw [hb, hp] at this; simpa using this
+  | true =>
+    have hn := run_pinv htok hpm hpoll hfix h (by intro k hk; simp [Cache.init] at hk)
+    have := bound_poll_quiet htok hi hn
+    rw [hb, hp, hr hpoll] at this; simpa using this
+
+/-! ### concurrency: the policy messages of one key arrive in the order of the storage operations on it
+
+The theorems above are about one thread.  What a second thread can change for the bookkeeping of ONE key is the order
+in which `Insert(k)` / `Removed(k)` reach the write buffer.  `Lemmas/TinyLfuMsgOrder` is an LTS for one key with any
+number of threads (storage access + push under the key's bucket lock = one step, as in `VacantEntry::insert` /
+`OccupiedEntry::remove`; the maintenance pass consumes the buffer in FIFO order).  MODELLED, not verified: the bucket
+lock of `scc::HashMap::entry_sync` is mutual exclusion per key. -/
+
+/-- Locked pushes (`late = false`, the code as it is), any number of threads, any interleaving: the messages were
+pushed in exactly the order of the storage operations on the key (and no push is outstanding). -/
+theorem message_order_is_storage_order (evs : List MsgOrder.Ev) :
+    (MsgOrder.run false {} evs).msgs = (MsgOrder.run false {} evs).ops ∧ (MsgOrder.run false {} evs).pend = [] :=
+  ⟨(MsgOrder.run_inv evs MsgOrder.init_inv).order, (MsgOrder.run_inv evs MsgOrder.init_inv).nopend⟩
+
+/-- …hence, whenever the buffer is drained, the policy tracks the key iff it is resident. -/
+theorem tracked_iff_resident_after_drain (evs : List MsgOrder.Ev) (hb : (MsgOrder.run false {} evs).buf = []) :
+    (MsgOrder.run false {} evs).tracked = (MsgOrder.run false {} evs).resident := by
+  have := (MsgOrder.run_inv evs MsgOrder.init_inv).will
+  simpa [MsgOrder.willTrack, hb] using this
+
+/-- …at any moment: what the policy will say once the present buffer is drained is whether the key is resident now. -/
+theorem will_track_iff_resident (evs : List MsgOrder.Ev) :
+    MsgOrder.willTrack (MsgOrder.run false {} evs) = (MsgOrder.run false {} evs).resident :=
+  (MsgOrder.run_inv evs MsgOrder.init_inv).will
+
+/-- Witness for the variant that pushes `Removed` after the bucket lock is released (`late = true`, the seeded change
+`/verif/seeded/C16-removed-message-after-unlock`): on `MsgOrder.lateWitness` (remove by thread A, re-insert by thread
+B, A's late push, drain) the messages are `[Insert, Insert, Removed]` for the storage operations
+`[Insert, Removed, Insert]`; buffer drained, nothing outstanding: the key is resident and the policy does not track
+it — it can never be evicted (`resident_tracked` fails) and is not counted (`bounded_quiescent` fails).  The same
+history with locked pushes ends resident and tracked. -/
+theorem removed_after_unlock_leaks :
+    (let s := MsgOrder.run true {} MsgOrder.lateWitness
+     let s' := MsgOrder.run false {} MsgOrder.lateWitness
+     s.resident = true ∧ s.tracked = false ∧ s.buf = [] ∧ s.pend = [] ∧
+       s.ops = [.ins, .rem, .ins] ∧ s.msgs = [.ins, .ins, .rem] ∧
+       s'.resident = true ∧ s'.tracked = true ∧ s'.buf = []) := by
+  decide
 
 /-! ### HISTORICAL — `Poll` before the fix of finding F15 (`fixTrim := false`, explicitly) -/
 
